@@ -28,7 +28,7 @@ ROWCOL = {'face_node': ('face', 'node'), 'face_edge': ('face', 'edge'), 'face_fa
 UGRID_VARIANTS = [
     dict(supplied={'face_face'}, coords_as_coords=True, fill='attr', start_index=1),
     dict(supplied={'edge_face', 'edge_node'}, coords_as_coords=False, fill='nan', start_index=1),
-    dict(supplied={'face_edge', 'edge_node'}, coords_as_coords=True, fill='attr', start_index=0),
+    dict(supplied={'face_edge', 'edge_node'}, coords_as_coords=True, fill='attr', start_index=0, transposed=True),
     dict(supplied={'edge_node', 'face_edge', 'edge_face', 'face_face'}, coords_as_coords=False, fill='attr', start_index=1),
     dict(supplied=set(), coords_as_coords=True, fill='nan', start_index=0),
     # edges known only through face_edge / edge_face and a declared edge dimension (no edge_node table)
